@@ -2202,6 +2202,9 @@ class StdMixin:
                     pass
             self.u.shim_need.add(('make_shared', 'vec_T'))
             return 'bs_make_shared_vec(%s)' % v
+        if name == 'epsilon' and not args:
+            # std::numeric_limits<T>::epsilon(): some positive number (its value is a property of the scalar type)
+            return 'BS_EPSILON'
         raise ExtractionError('%s: std function %s/%d' % (self.fi.cname, name, len(args)))
 
 
